@@ -33,7 +33,13 @@ let parse_item (t : string) : wc_item =
   if String.length t > 0 && t.[0] = 't' then ITimeout (nat_of_int (int_of_string (String.sub t 1 (String.length t - 1))))
   else IRun (nat_of_int (int_of_string t))
 
-let parse_sched s = List.map parse_item (split_ne ',' s)
+(* schedule item of a case line: f<tid> = forced step of a thread parked before a held mutex (the harness
+   resumes the real goroutine, which must park inside Lock(); in the model the step is the disabled no-op) *)
+let parse_fitem (t : string) : bool * wc_item =
+  if String.length t > 0 && t.[0] = 'f' then (true, IRun (nat_of_int (int_of_string (String.sub t 1 (String.length t - 1)))))
+  else (false, parse_item t)
+
+let parse_sched s = List.map parse_fitem (split_ne ',' s)
 
 let fault_of m = match get m "fault" with
   | "storeearly" -> Some FStoreEarly
@@ -75,18 +81,37 @@ let show_step (chans : wc_chan list ref) s1 tid (acts : wc_act list) : string =
 
 let nthreads s = List.length (wc_threads s)
 
-let run_steps fault chans s sched =
+let pc_of s tid = wc_pcof (List.nth (wc_threads s) tid)
+
+(* one harness step = wc_lwstep of the model (models/WaitClose.v, "the steps of the harness"; wc_lwrun_is_run: a run
+   of such steps is a run of the model). inlock = the thread that is really inside Lock() on the implementation
+   side; its automatic acquisition is rendered as "+<tid>:<obs>". The faulty variants (canaries) and timer items
+   are plain steps. *)
+let step_item fault inlock chans s (forced, it) =
+  match fault, it with
+  | None, IRun i ->
+    let (((s1, inl1), acts), auto) = wc_lwstep s !inlock forced i in
+    inlock := inl1;
+    let o = show_step chans s1 i acts in
+    (match auto with
+     | Some (j, acts2) -> (s1, o ^ "+" ^ string_of_int (int_of_nat j) ^ ":" ^ show_step chans s1 j acts2)
+     | None -> (s1, o))
+  | _ ->
+    let (s1, acts) = step_with fault s it in
+    (s1, show_step chans s1 (wc_item_tid it) acts)
+
+let run_steps fault inlock chans s sched =
   let buf = Buffer.create 64 in
   let s = ref s in
-  List.iteri (fun k it ->
-      let (s1, acts) = step_with fault !s it in
+  List.iteri (fun k fit ->
+      let (s1, o) = step_item fault inlock chans !s fit in
       if k > 0 then Buffer.add_char buf ',';
-      Buffer.add_string buf (show_step chans s1 (wc_item_tid it) acts);
+      Buffer.add_string buf o;
       s := s1) sched;
   (!s, Buffer.contents buf)
 
 (* round-robin completion, as the harness *)
-let finish fault chans s =
+let finish fault inlock chans s =
   let buf = Buffer.create 64 in
   let s = ref s and first = ref true and go = ref true and n = ref 0 in
   while !go && !n < 4096 do
@@ -95,10 +120,10 @@ let finish fault chans s =
     for i = 0 to nthreads !s - 1 do
       let it = IRun (nat_of_int i) in
       if wc_enabled !s it then begin
-        let (s1, acts) = step_with fault !s it in
+        let (s1, o) = step_item fault inlock chans !s (false, it) in
         if not !first then Buffer.add_char buf ',';
         first := false;
-        Buffer.add_string buf (string_of_int i ^ ":" ^ show_step chans s1 (nat_of_int i) acts);
+        Buffer.add_string buf (string_of_int i ^ ":" ^ o);
         s := s1; progressed := true
       end
     done;
@@ -108,6 +133,23 @@ let finish fault chans s =
 
 let all_finished s =
   List.for_all (fun th -> wc_pcof th = WIdle && wc_todo th = []) (wc_threads s)
+
+(* threads inside WaitUtil's select; None if some other thread is unfinished (deadlock) *)
+let waiting_threads s =
+  let l = List.mapi (fun i th -> (i, th)) (wc_threads s) in
+  if List.for_all (fun (_, th) -> (wc_pcof th = WIdle && wc_todo th = []) || (match wc_pcof th with WWait _ -> true | _ -> false)) l
+  then Some (List.filter_map (fun (i, th) -> match wc_pcof th with WWait _ -> Some i | _ -> None) l)
+  else None
+
+(* the harness releases the waiting calls by a Close(nil) of its own: an extra thread running Close(nil) to its end *)
+let release s =
+  let n = nthreads s in
+  let s = ref { wc_sh = wc_sh s; wc_threads = wc_threads s @ [ { wc_pcof = WIdle; wc_todo = [OpClose CbNone] } ] } in
+  let k = ref 0 in
+  while wc_enabled !s (IRun (nat_of_int n)) && !k < 64 do
+    incr k; s := fst (wc_step !s (IRun (nat_of_int n)))
+  done;
+  !s
 
 let key_of_state s = Marshal.to_string (wc_sh s, List.map (fun th -> (wc_pcof th, wc_todo th)) (wc_threads s)) []
 
@@ -123,7 +165,7 @@ let enum_all s0 max =
     if !cnt < max then
       match enabled_list s with
       | [] -> out := List.rev path :: !out; incr cnt
-      | en -> List.iter (fun i -> let (s1, _) = wc_step s (IRun (nat_of_int i)) in go s1 (i :: path)) en in
+      | en -> List.iter (fun i -> let (s1, _) = wc_hstep s (IRun (nat_of_int i)) in go s1 (i :: path)) en in
   go s0 [];
   List.rev !out
 
@@ -146,11 +188,33 @@ let enum_edges s0 max =
             out := List.rev (i :: path) :: !out; incr cnt end
         end) (List.init (nthreads s) (fun i -> i));
     List.iter (fun i ->
-        let (s1, _) = wc_step s (IRun (nat_of_int i)) in
+        let (s1, _) = wc_hstep s (IRun (nat_of_int i)) in
         let p1 = i :: path in
         if !cnt < max then begin out := List.rev p1 :: !out; incr cnt end;
         let k = key_of_state s1 in
         if not (Hashtbl.mem seen k) then begin Hashtbl.add seen k (); Queue.add (s1, p1) queue end)
+      en
+  done;
+  (List.rev !out, Hashtbl.length seen)
+
+(* one schedule per (reachable model state, thread parked before the held mutex): path to the state, then f<tid> *)
+let enum_forced s0 max =
+  let seen = Hashtbl.create 1024 in
+  let queue = Queue.create () in
+  let out = ref [] and cnt = ref 0 in
+  Hashtbl.add seen (key_of_state s0) ();
+  Queue.add (s0, []) queue;
+  while not (Queue.is_empty queue) && !cnt < max do
+    let (s, path) = Queue.pop queue in
+    let en = enabled_list s in
+    List.iter (fun i ->
+        if not (List.mem i en) && wc_at_lock (pc_of s i) && !cnt < max then begin
+          out := (sched_str (List.rev path) ^ (if path = [] then "" else ",") ^ "f" ^ string_of_int i) :: !out; incr cnt end)
+      (List.init (nthreads s) (fun i -> i));
+    List.iter (fun i ->
+        let (s1, _) = wc_hstep s (IRun (nat_of_int i)) in
+        let k = key_of_state s1 in
+        if not (Hashtbl.mem seen k) then begin Hashtbl.add seen k (); Queue.add (s1, i :: path) queue end)
       en
   done;
   (List.rev !out, Hashtbl.length seen)
@@ -160,10 +224,20 @@ let () =
   Registry.register "c16" (fun toks ->
       let m = kv toks in
       let fault = fault_of m in
-      let chans = ref [] in
-      let (s1, tr) = run_steps fault chans (wc_init (parse_progs (get m "progs"))) (parse_sched (get m "sched")) in
-      let (s2, fin) = finish fault chans s1 in
-      let tail = if all_finished s2 then " end=" ^ string_of_bool (sh_st (wc_sh s2) = WClosed) else " DEADLOCK" in
+      let chans = ref [] and inlock = ref None in
+      let (s1, tr) = run_steps fault inlock chans (wc_init (parse_progs (get m "progs"))) (parse_sched (get m "sched")) in
+      let (s2, fin) = finish fault inlock chans s1 in
+      let tail = match waiting_threads s2 with
+        | None -> " DEADLOCK"
+        | Some [] -> " end=" ^ string_of_bool (sh_st (wc_sh s2) = WClosed)
+        | Some w ->
+          let s3 = ref (release s2) in
+          let rel = List.map (fun i ->
+              let (s4, acts) = wc_step !s3 (IRun (nat_of_int i)) in
+              s3 := s4;
+              string_of_int i ^ ":" ^ show_step chans s4 (nat_of_int i) acts) w in
+          " waiting=" ^ String.concat "," (List.map string_of_int w)
+          ^ " end=" ^ string_of_bool (sh_st (wc_sh s2) = WClosed) ^ " rel=" ^ String.concat "," rel in
       "steps=" ^ tr ^ " fin=" ^ fin ^ tail);
   (* c16enum mode=all|edges max=N progs=..  ->  states=<n> scheds=s1;s2;... *)
   Registry.register "c16enum" (fun toks ->
@@ -173,6 +247,9 @@ let () =
       if get m "mode" = "all" then
         let l = enum_all s0 max in
         "states=0 scheds=" ^ String.concat ";" (List.map sched_str l)
+      else if get m "mode" = "forced" then
+        let (l, n) = enum_forced s0 max in
+        Printf.sprintf "states=%d scheds=%s" n (String.concat ";" l)
       else
         let (l, n) = enum_edges s0 max in
         Printf.sprintf "states=%d scheds=%s" n (String.concat ";" (List.map sched_str l)))
